@@ -5,7 +5,7 @@ From Coq Require Import ZArith QArith List Bool Lia.
 From KV Require Import Base.IEEE Base.Outcome Base.Num C19.Model C06.Model C06.Dur C06.Run.
 From KV Require Import C04.Model C04.ProofsTransport.
 From KV Require C04.Run.
-From KV Require Import C09.Model C09.ProofsTape C09.ProofsMain C09.ProofsLead C09.Run.
+From KV Require Import C09.Model C09.ProofsDecoder C09.ProofsTape C09.ProofsMain C09.ProofsLead C09.Run.
 Import ListNotations.
 Local Open Scope Z_scope.
 
@@ -22,16 +22,35 @@ Definition fuelq : nat := 200%nat.
 Definition capq : Z := 16384.
 
 Definition s_newq := static_new (T:=Q) fq zq Q (-60)%Q 0%Q Q 0%Q fuelq.
-Definition y_newq := stream_new (T:=Q) fq zq Q (-60)%Q 0%Q Q 0%Q.
 Definition s_runq := run_static (T:=Q) powq fq zq Q interpq (fun x => x) scaleq Q lerpq (-60)%Q 0%Q ampq Q lerpq pannedq fuelq.
-Definition y_runq := run_stream (T:=Q) powq fq zq Q interpq (fun x => x) scaleq Q lerpq (-60)%Q 0%Q ampq Q lerpq pannedq fuelq.
 
 Definition audio8 : list fq := map (fun k => (inject_Z k, inject_Z (- k))) [1; 2; 3; 4; 5; 6; 7; 8].
 Definition lin (d : Z) : tween Q := {| tw_start := Immediate; tw_dur := d; tw_easing := Linear |}.
 Definition nc : cmds Q Q Q := no_cmds.
-(** packets of 1, 2, 3, 1, 2, 3, ... frames; seeks land on multiples of four *)
-Definition ps1 (p : nat) : nat := (p mod 3)%nat.
-Definition ld1 (i : nat) : nat := (i - i mod 4)%nat.
+(** the example decoder: state = (position, number of calls so far); every other packet is EMPTY, the others hold
+    1, 2 or 3 frames (clipped at the end of the eight frames); seeks land on multiples of four *)
+Definition dq : Type := (nat * nat)%type.
+Definition dq_pos (d : dq) : nat := fst d.
+Definition dq_size (d : dq) : nat := if Nat.even (snd d) then 0%nat else S (fst d mod 3).
+Definition dq_next (d : dq) : dq := ((fst d + Nat.min (dq_size d) (8 - fst d))%nat, S (snd d)).
+Definition dq_seek (d : dq) (i : nat) : dq := ((i - i mod 4)%nat, S (snd d)).
+Definition dq_err (d : dq) : bool := (8 <=? fst d)%nat.
+Definition dq0 : dq := (0%nat, 0%nat).
+Definition y_newq := stream_new (T:=Q) fq zq Q (-60)%Q 0%Q Q 0%Q audio8 dq dq_pos dq_seek dq0.
+Definition y_runq := run_stream (T:=Q) powq fq zq Q interpq (fun x => x) scaleq Q lerpq (-60)%Q 0%Q ampq Q lerpq pannedq fuelq
+                                audio8 dq dq_pos dq_size dq_next dq_seek dq_err capq.
+Lemma dq_conforming : conforming fq audio8 dq dq_pos dq_size dq_next dq_seek dq_err 2.
+Proof.
+  change (length audio8) with 8%nat. split; [|split; [|split]].
+  - intros d H. unfold dq_err, dq_pos in *. apply Nat.leb_gt. exact H.
+  - intros d _. reflexivity.
+  - intros d i. unfold dq_pos, dq_seek. cbn [fst]. pose proof (Nat.mod_upper_bound i 4). lia.
+  - exists (fun d => if Nat.even (snd d) then 1%nat else 0%nat). intros d. split.
+    + destruct (Nat.even (snd d)); lia.
+    + intros _ Hs. unfold dq_size in Hs. unfold dq_next. cbn [snd]. rewrite Nat.even_succ.
+      destruct (Nat.even (snd d)) eqn:Ev; [|discriminate].
+      rewrite <- Nat.negb_even, Ev. cbn. lia.
+Qed.
 Definition dec (k : nat) : list (event Q Q Q) := repeat EvDecode k.
 Definition proc (len : Z) : event Q Q Q := EvProcess len (1#4)%Q no_info.
 
@@ -88,11 +107,11 @@ Definition evs1 : list (event Q Q Q) :=
   [EvStart {| k_vol := None; k_rate := None; k_pan := None; k_pause := None; k_resume := Some (Immediate, lin 0); k_stop := None |};
    proc 3; EvStart nc; proc 1].
 
-Lemma wf1 : wf_config fq zq Q Q fuelq audio8 4 (Some (1, 7)) g1 7.
-Proof. unfold wf_config. cbn. unfold slice_wf, req_loop, u64_max. cbn. repeat split; try lia; try discriminate. unfold fuelq; lia. Qed.
+Lemma wf1 : wf_config fq zq Q Q fuelq audio8 4 (Some (1, 7)) g1 7 2.
+Proof. unfold wf_config. cbn. unfold slice_wf, req_loop, u64_max. cbn. repeat split; try lia; try discriminate. unfold need_fuel, fuelq; cbn; lia. Qed.
 Lemma rates1 : rates_nonneg powq Q Q g1 evs1.
 Proof. split; [reflexivity|]. apply rates_okb_sound. vm_compute. reflexivity. Qed.
-Lemma ahead1 : exists w ys, y_newq audio8 ld1 4 (Some (1, 7)) g1 = Ok w /\ y_runq audio8 ps1 ld1 capq w evs1 = Ok (ys, false) /\
+Lemma ahead1 : exists w ys, y_newq 4 (Some (1, 7)) g1 = Ok w /\ y_runq w evs1 = Ok (ys, false) /\
                             (13 <= length ys)%nat.
 Proof. eexists _, _. split; [vm_compute; reflexivity|]. split; [vm_compute; reflexivity|]. cbn. lia. Qed.
 
@@ -101,13 +120,13 @@ Definition g2 : settings Q Q Q :=
   {| g_start_time := Immediate; g_start_pos := Samples 0; g_loop := None;
      g_volume := Fixed 0%Q; g_rate := Fixed (3#2)%Q; g_pan := Fixed 0%Q; g_fade_in := None |}.
 Definition evs2 := dec 4 ++ [EvStart nc; proc 4].
-Lemma wf2 : wf_config fq zq Q Q fuelq audio8 4 None g2 8.
-Proof. unfold wf_config. cbn. unfold u64_max. cbn. repeat split; try lia; try discriminate. unfold fuelq; lia. Qed.
+Lemma wf2 : wf_config fq zq Q Q fuelq audio8 4 None g2 8 2.
+Proof. unfold wf_config. cbn. unfold u64_max. cbn. repeat split; try lia; try discriminate. unfold need_fuel, fuelq; cbn; lia. Qed.
 Lemma starved_witness :
-  wf_config fq zq Q Q fuelq audio8 4 None g2 8 /\ rates_nonneg powq Q Q g2 evs2 /\
+  wf_config fq zq Q Q fuelq audio8 4 None g2 8 2 /\ rates_nonneg powq Q Q g2 evs2 /\
   exists x w xs ys,
-    s_newq 4 (audio_source fq zq audio8) None g2 = Ok x /\ y_newq audio8 ld1 4 None g2 = Ok w /\
-    s_runq x evs2 = Ok xs /\ y_runq audio8 ps1 ld1 capq w evs2 = Ok (ys, true) /\
+    s_newq 4 (audio_source fq zq audio8) None g2 = Ok x /\ y_newq 4 None g2 = Ok w /\
+    s_runq x evs2 = Ok xs /\ y_runq w evs2 = Ok (ys, true) /\
     ~ Forall2 (obs_rel fq 4) xs ys.
 Proof.
   split; [exact wf2|]. split; [split; [reflexivity | apply rates_okb_sound; vm_compute; reflexivity]|].
@@ -121,8 +140,8 @@ Definition evs3 := dec 12 ++ [EvStart nc; proc 4; EvStart nc; proc 4].
 Lemma slice_beyond_witness :
   ~ slice_wf fq audio8 (Some (5, 11)) /\ rates_nonneg powq Q Q g2 evs3 /\
   exists x w xs ys,
-    s_newq 4 (audio_source fq zq audio8) (Some (5, 11)) g2 = Ok x /\ y_newq audio8 ld1 4 (Some (5, 11)) g2 = Ok w /\
-    s_runq x evs3 = Ok xs /\ y_runq audio8 ps1 ld1 capq w evs3 = Ok (ys, false) /\
+    s_newq 4 (audio_source fq zq audio8) (Some (5, 11)) g2 = Ok x /\ y_newq 4 (Some (5, 11)) g2 = Ok w /\
+    s_runq x evs3 = Ok xs /\ y_runq w evs3 = Ok (ys, false) /\
     ~ Forall2 (obs_rel fq 4) xs ys.
 Proof.
   split; [unfold slice_wf; cbn; lia|]. split; [split; [reflexivity | apply rates_okb_sound; vm_compute; reflexivity]|].
@@ -137,13 +156,13 @@ Definition g4 : settings Q Q Q :=
      g_volume := Fixed 0%Q; g_rate := Fixed (-1)%Q; g_pan := Fixed 0%Q; g_fade_in := None |}.
 Definition evs4 := dec 12 ++ [EvStart nc; proc 4].
 Lemma negative_rate_witness :
-  wf_config fq zq Q Q fuelq audio8 4 None g4 8 /\ ~ rates_nonneg powq Q Q g4 evs4 /\
+  wf_config fq zq Q Q fuelq audio8 4 None g4 8 2 /\ ~ rates_nonneg powq Q Q g4 evs4 /\
   exists x w xs ys,
-    s_newq 4 (audio_source fq zq audio8) None g4 = Ok x /\ y_newq audio8 ld1 4 None g4 = Ok w /\
-    s_runq x evs4 = Ok xs /\ y_runq audio8 ps1 ld1 capq w evs4 = Ok (ys, false) /\
+    s_newq 4 (audio_source fq zq audio8) None g4 = Ok x /\ y_newq 4 None g4 = Ok w /\
+    s_runq x evs4 = Ok xs /\ y_runq w evs4 = Ok (ys, false) /\
     ~ Forall2 (obs_rel fq 4) xs ys.
 Proof.
-  split; [unfold wf_config; cbn; unfold u64_max; cbn; repeat split; try lia; try discriminate; unfold fuelq; lia|].
+  split; [unfold wf_config; cbn; unfold u64_max; cbn; repeat split; try lia; try discriminate; unfold need_fuel, fuelq; cbn; lia|].
   split; [intros [H _]; vm_compute in H; discriminate|].
   eexists _, _, _, _. split; [vm_compute; reflexivity|]. split; [vm_compute; reflexivity|].
   split; [vm_compute; reflexivity|]. split; [vm_compute; reflexivity|].
